@@ -513,7 +513,8 @@ class FiniteBifield:
         """
         # For our implementation, the element 'x' (represented by value 2 or 0b10)
         # is primitive when using the standard primitive polynomials
-        return self(0b10)
+        # reduce x modulo the field modulus so that GF(2) (modulus x + 1) yields 1
+        return self((BinaryPolynomial(0b10) % self.modulus).value)
 
     def get_all_elements(self) -> List["FiniteBifieldElement"]:
         """Get all elements of the field.
